@@ -2,7 +2,7 @@
 
 #![allow(dead_code)]
 
-use crate::cmd::{Cmd, StoreKind};
+use crate::cmd::{CasArg, Cmd, StoreKind};
 use crate::model::*;
 use crate::sut::DumpItem;
 use crate::wire::{self, st, Resp};
@@ -130,6 +130,15 @@ impl Model {
                 }
                 if c.before != c.after {
                     out.push(v("too-large", format!("{} (over the limit) changed the store", c.cmd.short())));
+                    // a request refused for its size is a rejected command like any other: the item
+                    // it names stays byte-for-byte what it was (C06 for the conditional stores, C02
+                    // for everything that carried a CAS)
+                    if matches!(c.cmd, Cmd::Store { kind: StoreKind::Add | StoreKind::Replace, .. } | Cmd::Concat { .. }) {
+                        out.push(v("too-large-modified-cond", format!("{} was refused (over the item size limit) and the stored item changed all the same", c.cmd.short())));
+                    }
+                    if !matches!(c.cmd.cas_arg(), None | Some(CasArg::Zero)) {
+                        out.push(v("too-large-modified-cas", format!("{} carried a CAS, was refused (over the item size limit) and the stored item changed all the same", c.cmd.short())));
+                    }
                     self.resync_all(c.after);
                 }
                 return out;
@@ -1006,7 +1015,10 @@ impl Model {
                             exempt: c.cas != 0,
                         });
                         ev.wrote = true;
-                    } else if c.cas == 0 {
+                    } else if c.cas == 0 || status == Some(st::NOT_FOUND) {
+                        // C07 is stated for every CAS field: on an absent key the counter is created
+                        // whatever CAS the request carries (there is no item a CAS could mismatch);
+                        // 'not found' is the answer reserved for expiration 0xffffffff
                         let clause = if matches!(ki.st, KeyState::Tomb(_)) { tomb_visible_clause(&ki.st, true) } else { "counter-create" };
                         ev.viol.push(v(clause, format!("{} answered {:?} on a key in state {:?}", name, status, ki.st)));
                     } else if after_e.is_some() && !unchanged {
